@@ -815,17 +815,17 @@ spif_dlinked_list_insert_at(spif_dlinked_list_t self, spif_obj_t obj, spif_listi
     }
     REQUIRE_RVAL((idx + 1) > 0, FALSE);
 
-    if (idx == 0 || SPIF_DLINKED_LIST_ITEM_ISNULL(self->head)) {
+    if (idx == 0) {
         return spif_dlinked_list_prepend(self, obj);
-    } else if (idx == (self->len - 1) || SPIF_DLINKED_LIST_ITEM_ISNULL(self->tail)) {
-        return spif_dlinked_list_append(self, obj);
-    } else if (idx > self->len) {
+    } else if (idx >= self->len) {
+        /* At or past the end:  pad with placeholders, then append. */
         for (i = self->len; i < idx; i++) {
             spif_dlinked_list_append(self, (spif_obj_t) NULL);
         }
         return spif_dlinked_list_append(self, obj);
     } else if (idx > (self->len / 2)) {
-        for (current = self->tail, i = self->len - 1; current->prev && i > idx; i--, current = current->prev);
+        /* Find the item that will precede the new one (position idx - 1). */
+        for (current = self->tail, i = self->len; current->prev && i > idx; i--, current = current->prev);
         if (i != idx) {
             return FALSE;
         }
